@@ -109,8 +109,12 @@ def canonical_problem(s):
 
 
 class Prop:
-    def __init__(self, pid, streams, ops, project, oracle=None, features=ALL_FEATURES, note="", design_ref=""):
+    def __init__(self, pid, streams, ops, project, oracle=None, features=ALL_FEATURES, note="", design_ref="", configs=None,
+                 thorough_configs=None):
         self.pid = pid
+        # configs: list of (label, feature tuple); every config runs the same streams against its own harness build
+        self.configs = configs or [("all", features)]
+        self.thorough_configs = thorough_configs or self.configs
         self.streams = streams        # list of (stream, GEN_OPS or None) or callables producing request lines
         self.ops = ops                # set of op names this property looks at (None = all)
         self.project = project        # (op, resp) -> projected resp (applied to impl and model alike)
@@ -485,6 +489,184 @@ def orc_c17(ctx, op, req, impl, model, spec):
     return None
 
 
+
+# ---- C14 / C18: CLDR layout oracle (read from the JSON files, independently of the Rust and of the Lean translation) ----
+
+_LAYOUT = None
+
+
+def layout_data():
+    """name -> direction, and language -> set of directions"""
+    global _LAYOUT
+    if _LAYOUT is None:
+        root = os.path.join(R.REPO, "unic-langid-impl", "data", "cldr-misc-full", "main")
+        names = {}
+        langdirs = collections.defaultdict(set)
+        for n in sorted(os.listdir(root)):
+            p = os.path.join(root, n, "layout.json")
+            if not os.path.exists(p):
+                continue
+            j = json.load(open(p))
+            key = next(iter(j["main"].keys()))
+            if key == "root":
+                continue
+            d = {"left-to-right": "LTR", "right-to-left": "RTL", "top-to-bottom": "TTB"}[j["main"][key]["layout"]["orientation"]["characterOrder"]]
+            names[key] = d
+            langdirs[key.split("-")[0].lower()].add(d)
+        _LAYOUT = (names, langdirs)
+    return _LAYOUT
+
+
+def orc_layout(ctx, op, req, impl, model, spec):
+    if op != "dir" or not impl.startswith("ok"):
+        return None
+    names, langdirs = layout_data()
+    try:
+        name = R.unhex(req.split(" ")[1]).decode("ascii")
+    except Exception:
+        return None
+    base = name
+    extra_variant = False
+    if name.endswith("-1996") and name[:-5] in names:
+        base, extra_variant = name[:-5], True
+    if base not in names:
+        return None
+    want = names[base]
+    got = impl[3:]
+    if got == want:
+        return None
+    toks = base.split("-")
+    has_script = any(len(t) == 4 and t.isalpha() for t in toks[1:])
+    if ctx.get("likely", True):
+        return "character_direction(%s) = %s, CLDR characterOrder is %s" % (name, got, want)
+    if has_script or len(langdirs[toks[0].lower()]) < 2:
+        return ("without likelysubtags character_direction(%s) = %s, CLDR says %s, and the identifier is not a script-less "
+                "identifier of a language CLDR lists with more than one direction" % (name, got, want))
+    return None
+
+
+def orc_c14(ctx, op, req, impl, model, spec):
+    return orc_layout(ctx, op, req, impl, model, spec)
+
+
+def orc_c18(ctx, op, req, impl, model, spec):
+    if op == "dir":
+        return orc_layout(ctx, op, req, impl, model, spec)
+    if op == "cldrversion":
+        v = json.load(open(os.path.join(R.REPO, "unic-langid-impl", "data", "likelySubtags.json")))["supplemental"]["version"]["_cldrVersion"]
+        if impl != "ok " + v:
+            return "CLDR_VERSION is %s, the data says %s" % (impl, v)
+        return None
+    return orc_spec_equal(ctx, op, req, impl, model, spec)
+
+
+# ---- C16 ----
+
+def proj_c16(op, r):
+    if r is None:
+        return "died"
+    if r.startswith("value"):
+        return r.split(" eq=")[0]
+    return r.split(" ")[0]
+
+
+def orc_c16(ctx, op, req, impl, model, spec):
+    if op != "mac":
+        return None
+    if impl.startswith("value"):
+        if not impl.endswith("eq=1"):
+            return "the macro compiles but its value differs from run-time parsing (or run-time parsing fails)"
+        return None
+    if impl.startswith("cerr"):
+        if impl.endswith("rt=ok"):
+            return "well-formed literal (run-time parsing accepts it) is a compile-time error"
+        return None
+    if impl.startswith("rpanic"):
+        return "the macro compiles and panics at run time"
+    return "toolchain: " + impl
+
+
+# ---- C19 ----
+
+def proj_c19(op, r):
+    if op == "serfrom" and r.endswith("| badjson"):
+        return r.split(" | ")[0]
+    return r
+
+
+def judge_c19_pre(impl, model):
+    """JSON-library divergences (what is well-formed JSON text) are not the property: when either decoder calls the
+    text ill-formed, only the typed result is compared, and it must be an error"""
+    return impl
+
+
+def orc_c19(ctx, op, req, impl, model, spec):
+    if impl in ("notutf8", "panic", "na"):
+        return "panic" if impl == "panic" else None
+    if op == "serto":
+        if not impl.startswith("ok"):
+            return None
+        text = impl.split(" ")[1]
+        val = get_kv(impl.replace(" ", ";"), "val")
+        if get_kv(impl.replace(" ", ";"), "rt") != "1" or get_kv(impl.replace(" ", ";"), "rt2") != "1":
+            return "deserialising the serialised form does not give back an equal value"
+        if text != "%22" + (val or "") + "%22":
+            return "serialised form is not the quoted to_string()"
+        pr = canonical_problem(val or "")
+        if pr:
+            return "serialised string %s: %s" % (val, pr)
+        return None
+    if op == "serfrom":
+        r1, _, r2 = impl.partition(" | ")
+        if r2 == "badjson":
+            return None if r1 == "err" else "ill-formed JSON text deserialised to %s" % r1
+        if r1 != r2:
+            return "from_str and from_value disagree: %s vs %s" % (r1, r2)
+        return None
+    return None
+
+
+# ---- C20 ----
+
+def orc_c20(ctx, op, req, impl, model, spec):
+    if op in ("dir", "locdir") or impl in ("na",):
+        return None
+    base = ctx.setdefault("baseline", {})
+    key = hash(req)
+    if ctx.get("requery"):
+        return None
+    if ctx.get("first_config"):
+        base[key] = hash(impl)
+        return None
+    want = base.get(key)
+    if want is not None and want != hash(impl):
+        return "answer differs from the build without optional features (config %s)" % ctx.get("config")
+    return None
+
+
+# ---- known-finding classes (a class describes one defect by the shape of the failing input; see known_findings.json) ----
+
+def known_c08_no_minimal_form(req, impl):
+    """und-Script-Region identifiers for which none of language, language-region, language-script maximizes back:
+    minimize(x) leaves x, minimize(maximize(x)) leaves maximize(x)"""
+    f = req.split(" ")
+    if f[0] != "liminmax" or impl is None or not impl.startswith("ok "):
+        return False
+    try:
+        toks = re.split(rb"[-_]", R.unhex(f[1]))
+    except Exception:
+        return False
+    if len(toks) != 3 or toks[0].lower() != b"und":
+        return False
+    parts = impl[3:].split(" | ")
+    if len(parts) != 4:
+        return False
+    mn, mnmx, mx, mxmn = [parse_li_render(x) for x in parts]
+    return (mn["l"] == "und" and mn["s"] == mx["s"] and mn["r"] == mx["r"] and mnmx == mx and mxmn == mx and mx["l"] != "und")
+
+
+KNOWN_CLASSES = {"c08_no_minimal_form": known_c08_no_minimal_form}
+
 # ---- stream lists --------------------------------------------------------------------------------
 
 PARSE_STREAMS = [("tokens", None), ("wf", None), ("near", None), ("raw", None)]
@@ -519,6 +701,19 @@ PROPS = {
     "C11": Prop("C11", [("match", None)], {"match", "locmatch", "langmatch"}, proj_full, orc_c11, design_ref="4/C11"),
     "C12": Prop("C12", [("rel", None)], {"rel", "eqstr"}, proj_full, orc_c12, design_ref="4/C12"),
     "C13": Prop("C13", S(["tokens", "wf", "near", "raw"], "conv"), {"conv"}, proj_c13, orc_c13, design_ref="4/C13"),
+    "C14": Prop("C14", [("layoutnames", None)] + S(["triples"], "dir"), {"dir", "locdir"}, proj_full, orc_c14, design_ref="4/C14",
+                configs=[("likely", ALL_FEATURES), ("nolikely", ("macros", "serde"))]),
+    "C16": Prop("C16", [("macros", None)], {"mac"}, proj_c16, orc_c16, design_ref="4/C16"),
+    "C18": Prop("C18", [("layoutnames", None), ("tablemisc", None)] + S(["triples"], "max"), {"max", "dir", "cldrversion"}, proj_full, orc_c18,
+                design_ref="4/C18"),
+    "C19": Prop("C19", [("serde", None)], {"serto", "serfrom"}, proj_c19, orc_c19, design_ref="4/C19"),
+    "C20": Prop("C20", S(["tokens"], "loc") + S(["wf", "near"], "li,loc,lican,loccan,conv,liparts,locparts") + S(["subtag"], "lang,script,region,variant")
+                + [("hist", None), ("match", None), ("rel", None), ("parts", None), ("pairs", None), ("layoutnames", None)],
+                None, proj_full, orc_c20, design_ref="4/C20",
+                configs=[("none", ()), ("likely", ("likely",)), ("all", ALL_FEATURES)],
+                thorough_configs=[("none", ()), ("likely", ("likely",)), ("serde", ("serde",)), ("macros", ("macros",)),
+                                  ("likely-serde", ("likely", "serde")), ("likely-macros", ("likely", "macros")),
+                                  ("macros-serde", ("macros", "serde")), ("all", ALL_FEATURES)]),
     "C15": Prop("C15", S(["subtag"], "lang,script,region,variant,langstr") + [("langmisc", None)],
                 {"lang", "script", "region", "variant", "langstr", "langopt", "langdefault"}, proj_c15, orc_c15,
                 design_ref="4/C15"),
@@ -529,7 +724,7 @@ PROPS = {
 NOT_YET = {}
 
 # a property is claimed once it is listed here (its theorem file must exist and build)
-CLAIMED = ["C02", "C13", "C15"]
+CLAIMED = ["C02", "C04", "C05", "C07", "C08", "C11", "C12", "C13", "C15", "C17"]
 ALL_PROPS = PROPS
 PROPS = {k: v for k, v in ALL_PROPS.items()
          if k in CLAIMED or (os.environ.get("VERIF_DEV") and os.path.exists(os.path.join(R.LEAN, "UnicLocale", "Props", k + ".lean")))}
@@ -561,6 +756,15 @@ def extra_stream(name, tier, seed):
         for w in ["en", "UND", "und", "e", "", "abcd", "EN", "abcde", "root"]:
             lines.append("langopt " + R.hexs(w.encode()))
         return lines
+    if name == "layoutnames":
+        names, _ = layout_data()
+        lines = []
+        for n in names:
+            lines.append("dir " + R.hexs(n.encode()))
+            lines.append("dir " + R.hexs((n + "-1996").encode()))
+        return lines
+    if name == "tablemisc":
+        return ["cldrversion"]
     raise KeyError(name)
 
 
@@ -605,6 +809,9 @@ def judge(cfg, req, impl, mo, ctx):
     """returns (disagreement?, oracle message or None)"""
     op = req.split(" ", 1)[0]
     model, spec = split_model(mo)
+    if op in ("dir", "locdir") and spec is not None:
+        # the model answers for both builds: `<with likelysubtags>\t<without>`
+        model, spec = (model if ctx.get("likely", True) else spec), None
     if cfg.ops is not None and op not in cfg.ops:
         return False, None
     dis = False
@@ -614,6 +821,27 @@ def judge(cfg, req, impl, mo, ctx):
         dis = cfg.project(op, impl) != cfg.project(op, model)
     msg = cfg.oracle(ctx, op, req, impl, model, spec) if cfg.oracle else None
     return dis, msg
+
+
+def run_stream(harness, sname, path, workdir, timeout):
+    """answers one request file on both sides; returns (shards, problems)"""
+    if sname == "macros":
+        import macros as M
+        reqs = [l.rstrip("\n") for l in open(path)]
+        impl, notes = M.run_macros(harness, reqs)
+        model = R.answer_lines(R.DRIVER, reqs, timeout=600)
+        probs = []
+        if model is None:
+            model = [None] * len(reqs)
+            probs.append(("model", path, "driver died on the macros stream"))
+        with open(path + ".impl", "w") as f:
+            f.write("".join((a or "died") + "\n" for a in impl))
+        with open(path + ".model", "w") as f:
+            f.write("".join((m if m is not None else "died") + "\n" for m in model))
+        for n in notes:
+            log("  macros: " + n)
+        return [path], probs
+    return R.run_sharded(harness, path, workdir, timeout)
 
 
 def check(pid, tier, seed):
@@ -626,14 +854,22 @@ def check(pid, tier, seed):
     os.makedirs(workdir, exist_ok=True)
     for f in os.listdir(workdir):
         os.remove(os.path.join(workdir, f))
-    failures = []       # (kind, detail dict)
+    configs = cfg.thorough_configs if tier == "thorough" else cfg.configs
+    harnesses = {}
     with R.Lock():
-        harness, out = R.build_harness(cfg.features)
-        if not harness:
+        tabh, out = R.build_harness(ALL_FEATURES)      # the translator needs the tables (feature likelysubtags)
+        if not tabh:
             print(out[-6000:])
             print("BUILD-FAILED: the harness does not compile against %s" % R.REPO)
             return 2
-        e = R.regen(harness)
+        for label, feats in configs:
+            h, out = R.build_harness(feats)
+            if not h:
+                print(out[-6000:])
+                print("BUILD-FAILED: the harness does not compile against %s with features %s" % (R.REPO, feats))
+                return 2
+            harnesses[label] = h
+        e = R.regen(tabh)
         if e:
             print(e)
             return 2
@@ -656,13 +892,30 @@ def check(pid, tier, seed):
         hits = R.grep_forbidden()
         for h in hits:
             broken_theorems.append("forbidden construct: " + h)
+        if tier == "thorough":
+            r = R.sh(["lake", "env", "leanchecker", "UnicLocale.Props." + pid], cwd=R.LEAN)
+            if r.returncode != 0:
+                broken_theorems.append("leanchecker rejects UnicLocale.Props.%s: %s" % (pid, r.stdout[-300:]))
     else:
         errs = re.findall(r"error: (\S+\.lean:\d+:\d+): (.*)", out_thm)
         broken_theorems.append("lake build UnicLocale.Props.%s failed: %s" % (pid, "; ".join("%s %s" % e for e in errs[:5])))
         log(out_thm[-3000:])
 
     # ---- correspondence + oracle
-    files = gen_requests(harness, cfg, tier, seed, workdir)
+    known = [k for k in R.load_known() if k.get("property") == pid and k.get("status") == "known"]
+
+    def is_known(req, impl):
+        for k in known:
+            if k.get("request") == req:
+                return k
+            cls = k.get("class")
+            if cls and cls in KNOWN_CLASSES and KNOWN_CLASSES[cls](req, impl):
+                return k
+        return None
+    seen_known = set()
+    known_hits = 0
+    genh = harnesses[configs[0][0]]
+    files = gen_requests(genh, cfg, tier, seed, workdir)
     evaluations = 0
     nontrivial = set()
     dist = collections.Counter()
@@ -672,101 +925,118 @@ def check(pid, tier, seed):
     problems = []
     ctx = {}
     timeout = 900 if tier == "quick" else 3600
-    for sname, path in files:
-        shards, probs = R.run_sharded(harness, path, workdir, timeout)
-        for kind, shard, what in probs:
-            exe = harness if kind == "impl" else R.DRIVER
-            first = R.locate_hang_or_crash(exe, shard)
-            problems.append({"side": kind, "what": what, "request": first, "shown": R.show_req(first) if first else None})
-        n_stream = 0
-        for req, impl, mo in R.iter_results(shards):
-            evaluations += 1
-            n_stream += 1
-            op = req.split(" ", 1)[0]
-            cls = "died" if impl is None else ("ok" if impl.startswith(("ok", "some")) else impl.split(" ")[0])
-            dist[sname + "/" + op + "/" + cls] += 1
-            if cls == "ok":
-                nontrivial.add(hash(req))
-            if n_stream in (1, 1000) and len(samples) < 12:
-                samples.append({"stream": sname, "request": R.show_req(req), "impl": impl, "model": mo})
-            dis, msg = judge(cfg, req, impl, mo, ctx)
-            if dis and len(disagreements) < 50:
-                disagreements.append((sname, req, impl, mo))
-            elif dis:
-                disagreements.append(None)
-            if msg and len([x for x in oracle_failures if x]) < 50:
-                oracle_failures.append((sname, req, impl, mo, msg))
-            elif msg:
-                oracle_failures.append(None)
-        for s in shards:
-            for suffix in ("", ".impl", ".model"):
-                try:
-                    os.remove(s + suffix)
-                except OSError:
-                    pass
+    multi = len(configs) > 1
+    for label, feats in configs:
+        harness = harnesses[label]
+        ctx["config"] = label
+        ctx["likely"] = "likely" in feats
+        ctx["first_config"] = (label == configs[0][0])
+        for sname, path in files:
+            shards, probs = run_stream(harness, sname, path, workdir, timeout)
+            for kind, shard, what in probs:
+                exe = harness if kind == "impl" else R.DRIVER
+                first = R.locate_hang_or_crash(exe, shard) if sname != "macros" else None
+                problems.append({"side": kind, "what": what, "request": first, "shown": R.show_req(first) if first else None,
+                                 "config": label})
+            n_stream = 0
+            tag = (label + ":" if multi else "") + sname
+            for req, impl, mo in R.iter_results(shards):
+                evaluations += 1
+                n_stream += 1
+                op = req.split(" ", 1)[0]
+                cls = "died" if impl is None else ("ok" if impl.startswith(("ok", "some", "value")) else impl.split(" ")[0])
+                dist[tag + "/" + op + "/" + cls] += 1
+                if cls == "ok":
+                    nontrivial.add(hash(req))
+                if n_stream in (1, 1000) and len(samples) < 16:
+                    samples.append({"stream": tag, "request": R.show_req(req), "impl": impl, "model": mo})
+                dis, msg = judge(cfg, req, impl, mo, ctx)
+                if dis and len(disagreements) < 50:
+                    disagreements.append((sname, req, impl, mo, label))
+                elif dis:
+                    disagreements.append(None)
+                if msg:
+                    k = is_known(req, impl)
+                    if k:
+                        known_hits += 1
+                        if id(k) not in seen_known:
+                            seen_known.add(id(k))
+                            print("KNOWN-FINDING: property=%s %s" % (pid, k.get("line", k.get("what", R.show_req(req)))))
+                        msg = None
+                if msg and len([x for x in oracle_failures if x]) < 50:
+                    oracle_failures.append((sname, req, impl, mo, msg, label))
+                elif msg:
+                    oracle_failures.append(None)
+            for sh_ in shards:
+                for suffix in ("", ".impl", ".model"):
+                    if sname == "macros" and suffix == "":
+                        continue
+                    try:
+                        os.remove(sh_ + suffix)
+                    except OSError:
+                        pass
 
     # ---- verdict
-    known = [k for k in R.load_known() if k.get("property") == pid and k.get("status") == "known"]
     violations = []
 
-    def is_known(req):
-        for k in known:
-            if k.get("request") == req:
-                return k
-        return None
-
     def requery(lines, exe):
+        if lines and lines[0].startswith("mac ") and exe != R.DRIVER:
+            import macros as M
+            return M.run_macros(exe, lines)[0]
         return R.answer_lines(exe, lines) or [None] * len(lines)
 
     # (a) the oracle found failing inputs on the implementation: concrete violations
-    seen_known = set()
     real_oracle = [x for x in oracle_failures if x]
-    for sname, req, impl, mo, msg in real_oracle[:5]:
-        def still_bad(cands, _sname=sname):
-            ims = requery(cands, harness)
+    budget = 5
+    for sname, req, impl, mo, msg, label in real_oracle:
+        if budget == 0:
+            break
+        harness = harnesses[label]
+        budget -= 1
+        c0 = {"likely": "likely" in dict(configs)[label], "config": label, "requery": True}
+
+        def still_bad(cands, _h=harness, _c0=c0):
+            ims = requery(cands, _h)
             mos = requery(cands, R.DRIVER)
             out = []
-            c2 = {}
             for c, i, m in zip(cands, ims, mos):
                 if i is None:
                     out.append(cfg.pid == "C01")
                     continue
                 mm, sp = split_model(m)
-                out.append(bool(cfg.oracle(c2, c.split(" ", 1)[0], c, i, mm, sp)))
+                out.append(bool(cfg.oracle(dict(_c0), c.split(" ", 1)[0], c, i, mm, sp)) and not is_known(c, i))
             return out
-        small = R.shrink(req, still_bad) if sname != "corpus" else req
+        stateless = cfg.oracle(dict(c0), req.split(" ", 1)[0], req, impl, *split_model(mo))
+        small = R.shrink(req, still_bad) if (sname not in ("corpus", "macros") and stateless) else req
         i2 = requery([small], harness)[0]
         m2 = requery([small], R.DRIVER)[0]
         mm, sp = split_model(m2)
-        msg2 = cfg.oracle({}, small.split(" ", 1)[0], small, i2, mm, sp) or msg
-        k = is_known(small) or is_known(req)
-        if k:
-            if k["request"] not in seen_known:
-                seen_known.add(k["request"])
-                print("KNOWN-FINDING: property=%s %s" % (pid, k.get("what", R.show_req(k["request"]))))
-            continue
-        violations.append({"kind": "oracle", "stream": sname, "request": small, "shown": R.show_req(small), "impl": i2,
+        msg2 = cfg.oracle(dict(c0), small.split(" ", 1)[0], small, i2, mm, sp) or msg
+        violations.append({"kind": "oracle", "stream": sname, "config": label, "request": small, "shown": R.show_req(small), "impl": i2,
                            "model_and_spec": m2, "why": msg2, "original_request": req, "seed": seed, "tier": tier})
     for pr in problems:
         if pr["side"] == "impl":
             violations.append({"kind": "crash-or-hang", "request": pr["request"], "shown": pr["shown"], "why": pr["what"],
-                               "seed": seed, "tier": tier})
+                               "config": pr.get("config"), "seed": seed, "tier": tier})
     # (b) something no longer checks but no failing input was found
     nofail = []
     real_dis = [x for x in disagreements if x]
     if not violations:
-        for sname, req, impl, mo in real_dis[:3]:
-            def still_dis(cands):
-                ims = requery(cands, harness)
+        for sname, req, impl, mo, label in real_dis[:3]:
+            harness = harnesses[label]
+            c0 = {"likely": "likely" in dict(configs)[label], "config": label, "requery": True}
+
+            def still_dis(cands, _h=harness, _c0=c0):
+                ims = requery(cands, _h)
                 mos = requery(cands, R.DRIVER)
-                return [judge(cfg, c, i, m, {})[0] for c, i, m in zip(cands, ims, mos)]
-            small = R.shrink(req, still_dis) if sname != "corpus" else req
+                return [judge(cfg, c, i, m, dict(_c0))[0] for c, i, m in zip(cands, ims, mos)]
+            small = R.shrink(req, still_dis) if sname not in ("corpus", "macros") else req
             i2 = requery([small], harness)[0]
             m2 = requery([small], R.DRIVER)[0]
-            nofail.append({"kind": "correspondence", "no_longer_checks": "corr:%s/%s" % (sname, small.split(" ", 1)[0]),
+            nofail.append({"kind": "correspondence", "no_longer_checks": "corr:%s/%s" % (sname, small.split(" ", 1)[0]), "config": label,
                            "request": small, "shown": R.show_req(small), "impl": i2, "model_and_spec": m2, "seed": seed, "tier": tier})
-        for b in broken_theorems:
-            nofail.append({"kind": "theorem", "no_longer_checks": "UL.Props.%s" % pid, "detail": b, "seed": seed, "tier": tier})
+        for b_ in broken_theorems:
+            nofail.append({"kind": "theorem", "no_longer_checks": "UL.Props.%s" % pid, "detail": b_, "seed": seed, "tier": tier})
         for pr in problems:
             if pr["side"] == "model":
                 nofail.append({"kind": "model-driver", "no_longer_checks": "driver", "detail": pr, "seed": seed, "tier": tier})
@@ -790,18 +1060,22 @@ def check(pid, tier, seed):
         "coverage": {
             "obligations": obligations if ok_thm else max(1, obligations),
             "discharged": obligations if (ok_thm and not broken_theorems) else 0,
-            "checker_cmd": "cd lean && lake build UnicLocale.Props.%s && lake env lean ../.build/audit_%s.lean  (#audit_ns: axioms per theorem)" % (pid, pid),
+            "checker_cmd": "cd lean && lake build UnicLocale.Props.%s && lake env lean ../.build/audit_%s.lean  (#audit_ns: axioms per theorem)%s"
+                           % (pid, pid, "; lake env leanchecker UnicLocale.Props.%s" % pid if tier == "thorough" else ""),
             "trusted_base": R.TRUSTED_BASE,
             "theorems": [{"name": n, "axioms": ax} for n, ax in thms],
             "evaluations": evaluations,
             "distinct_nontrivial": len(nontrivial),
             "rule": "every request line of the corpus and of the property's generator streams is answered by the real crates "
-                    "and by the Lean model/spec; non-trivial = distinct request whose implementation answer is a success (ok/some), "
-                    "counted by hashing the request lines",
+                    "(every listed feature configuration) and by the Lean model/spec; non-trivial = distinct request whose "
+                    "implementation answer is a success (ok/some/value), counted by hashing the request lines",
             "samples": samples,
+            "configs": [{"label": l, "features": list(f)} for l, f in configs],
             "distribution": dict(sorted(dist.items())),
             "model_disagreements": len(disagreements),
             "impl_vs_oracle_failures": len(oracle_failures),
+            "known_findings_printed": len(seen_known),
+            "known_finding_hits": known_hits,
             "exhaustive": False,
         },
         "assumptions": [cfg.note] if cfg.note else [],
